@@ -135,7 +135,8 @@ class ErrorHandling:
                 # make up a token
                 token = Token()
                 token.type = token_name
-                token.value = value
+                # placeholders of numbers have to be convertible by the grammar
+                token.value = {'INTEGER': '0', 'FLOAT': '0.0'}.get(token_name, value)
                 token.end = 0
                 token.index = 0
                 token.lineno = 0
